@@ -216,3 +216,38 @@ def bounded_fn(params):
     return {"evaluations": evals, "distinct_nontrivial": nontriv, "failures": failures, "exhaustive": True,
             "rule": "one reference, three candidate predictions: all single scores and all combined scores of prediction subsets over a score grid x thresholds x {IOU, ASSD}; real _match_instances with stubbed callee contracts; non-trivial = a merge happened",
             "bound": f"3 predictions, grid {grid}"}
+
+
+def reuse(params):
+    """one matcher object used for several pairs, also from two threads at once, gives what fresh matchers give"""
+    serial_pools()
+    import threading
+    from panoptica.instance_matcher import MaximizeMergeMatching
+    from panoptica.metrics import Metric
+    from panoptica.utils.processing_pair import UnmatchedInstancePair
+    bad = []
+    pairs = [(np.array([1, 1, 2, 2, 0, 3, 0, 0], np.uint8), np.array([1, 1, 1, 1, 0, 2, 2, 0], np.uint8)),
+             (np.array([1, 0, 0, 2, 2, 2, 0, 0], np.uint8), np.array([1, 1, 1, 1, 0, 0, 0, 0], np.uint8)),
+             (np.array([0, 1, 1, 1, 2, 0, 0, 0], np.uint8), np.array([0, 1, 1, 1, 1, 0, 0, 0], np.uint8))]
+    for metric, thr in (("IOU", 0.3), ("DSC", 0.5), ("ASSD", 1.0)):
+        fresh = [dict(MaximizeMergeMatching(Metric[metric], thr)._match_instances(UnmatchedInstancePair(p.copy(), r.copy())).labelmap) for p, r in pairs]
+        shared = MaximizeMergeMatching(Metric[metric], thr)
+        seq = [dict(shared._match_instances(UnmatchedInstancePair(p.copy(), r.copy())).labelmap) for p, r in pairs]
+        if seq != fresh:
+            bad.append(f"{metric}: a reused matcher gives {seq}, fresh matchers {fresh}")
+        before = dict(vars(shared))
+        res = {}
+
+        def work(i):
+            for _ in range(30):
+                res[i] = dict(shared._match_instances(UnmatchedInstancePair(pairs[i][0].copy(), pairs[i][1].copy())).labelmap)
+                if res[i] != fresh[i]:
+                    break
+        ts = [threading.Thread(target=work, args=(i,)) for i in range(len(pairs))]
+        [t.start() for t in ts]; [t.join() for t in ts]
+        for i in range(len(pairs)):
+            if res.get(i) != fresh[i]:
+                bad.append(f"{metric}: two threads sharing one matcher: pair {i} gives {res.get(i)}, a fresh matcher {fresh[i]}")
+        if set(vars(shared)) != set(before):
+            bad.append(f"{metric}: matching added attributes {sorted(set(vars(shared)) - set(before))} to the matcher object")
+    return {"violated": bool(bad), "problems": bad[:3]}
